@@ -461,12 +461,13 @@ static void UseMessage(const Message & m)
 }
 static Bytes ReuseBytes() { static Bytes b; if (b.empty()) { Message ok(0x52455553u); (void)ok.AddInt32("x", 1); (void)ok.AddString("s", "reuse"); Message sub(7); (void)sub.AddBool("b", true); (void)ok.AddMessage("m", sub); b = FlatBytes(ok); } return b; }
 
+static bool gMiniDup;
 static void WalkMini(const MMessage * mm, int depth)
 {
    MMessageIterator it = MMGetFieldNameIterator(mm, B_ANY_TYPE); const char * fn; uint32 tc; int guard = 0;
    while ((fn = MMGetNextFieldName(&it, &tc)) != NULL && guard++ < 100000) {
       Touch(fn, strlen(fn) + 1); uint32 n = 0, t2 = 0; if (MMGetFieldInfo(mm, fn, B_ANY_TYPE, &n, &t2) != CB_NO_ERROR) { Fail("walk|mini-fieldinfo", "MMGetFieldInfo cannot find an iterated field"); return; }
-      if (t2 != tc) { vh::stat("unspecified_mini_duplicate_field_name"); continue; }   // hostile input may repeat a name with another type: lookups by name see the first one
+      if (t2 != tc) { vh::stat("unspecified_mini_duplicate_field_name"); gMiniDup = true; continue; }   // hostile input may repeat a name with another type: lookups by name see the first one
       uint32 k = 0;
       switch (tc) {
       case B_BOOL_TYPE: { MBool * p = MMGetBoolField(mm, fn, &k); if (p) Touch(p, k * sizeof(MBool)); } break;
@@ -488,10 +489,10 @@ static void WalkMini(const MMessage * mm, int depth)
 }
 static void UseMini(const MMessage * mm)
 {
-   WalkMini(mm, 0); if (caseBad) return;
+   gMiniDup = false; WalkMini(mm, 0); if (caseBad) return;
    const uint32 fs = MMGetFlattenedSize(mm); if (fs < (1u << 26)) { Bytes o(fs, '\0'); Exact ex(o); MMFlattenMessage(mm, ex.p); Touch(ex.p, fs); }
    if (fs < 20000) MMPrint(mm, devnull);
-   MMessage * c = MMCloneMessage(mm); if (c) { if (!MMAreMessagesEqual(mm, c)) Fail("walk|mini-clone", "clone differs"); MMFreeMessage(c); }
+   MMessage * c = MMCloneMessage(mm); if (c) { if (!gMiniDup && !MMAreMessagesEqual(mm, c)) Fail("walk|mini-clone", "clone differs"); MMFreeMessage(c); }
 }
 
 // MicroMessage: the complete public read API over a parsed (read-only) buffer
@@ -742,10 +743,11 @@ static const Base & GetBase(int e, uint64_t seed, long idx, bool sweepBase)
 }
 struct SweepEnt { int kind; long base; int unit; long start, count; };
 static std::vector<SweepEnt> gSweep; static long gSweepTotal = 0;
-static void BuildSweep(int e, uint64_t seed, long nT, long nW)
+static void BuildSweep(int e, uint64_t seed, long nT, long nW, long cap)
 {
-   gSweep.clear(); gSweepTotal = 0;
+   gSweep.clear(); gSweepTotal = 0;   // cap: the sweeps stop growing (at a base boundary) once they hold 40% (prefixes) / 100% (words) of it, so a leg keeps room for the sampled families
    for (int kind = 0; kind < 2; kind++) for (long i = 0; i < (kind == 0 ? nT : nW); i++) {
+      if (cap > 0 && gSweepTotal >= (kind == 0 ? cap * 2 / 5 : cap)) break;
       const Base & B = GetBase(e, seed, i, true);
       for (size_t u = 0; u < B.units.size(); u++) { long c = 0; if (kind == 0) c = (long)std::min<size_t>(B.units[u].size(), 4096); else for (size_t w = 0; w < B.words[u].size(); w++) c += Slots(B.words[u][w]); if (c == 0) continue; SweepEnt s; s.kind = kind; s.base = i; s.unit = (int)u; s.start = gSweepTotal; s.count = c; gSweep.push_back(s); gSweepTotal += c; }
    }
@@ -852,6 +854,27 @@ static void Regress()
      if (UMInitializeWithExistingData(&um, ex.p, ex.n) != CB_NO_ERROR || UMFindData(&um, "r", B_RAW_TYPE, 1, &d, &dl) != CB_NO_ERROR || dl != 0) Fail("regress-F36", "UMFindData refuses a zero-length item at the end of its field"); }
 }
 
+static void Regress2(long k)
+{
+   RegressCase("micro iterator / item readers on truncated buffers and hostile name / data / item lengths (complete read walk)", k++);
+   { Message src(3); (void)src.AddString("str", "hello"); (void)src.AddString("str", "world!"); (void)src.AddInt32("i", 7); Message sub(4); (void)sub.AddBool("b", true); (void)src.AddMessage("m", sub); (void)src.AddMessage("m", sub); const uint8 raw[3] = {1, 2, 3}; (void)src.AddData("r", B_RAW_TYPE, raw, 3);
+     const Bytes v = FlatBytes(src); std::vector<Word> w; std::vector<FieldExt> f; if (!WalkMsg(v, 0, (uint32_t)v.size(), w, &f, 0)) { fprintf(stderr, "HARNESS-ABORT: regress walker\n"); abort(); }
+     long walks = 0;
+     for (size_t cut = 0; cut <= v.size(); cut++) { Bytes b = v.substr(0, cut); Exact ex(b); UMessage um; if (UMInitializeWithExistingData(&um, ex.p, ex.n) == CB_NO_ERROR) { WalkMicro(&um, 0); walks++; } }
+     for (size_t i = 0; i < w.size(); i++) for (uint32 sl = 0; sl < Slots(w[i]); sl++) { Bytes b = v; (void)ApplyWord(b, w[i], sl); Exact ex(b); UMessage um; if (UMInitializeWithExistingData(&um, ex.p, ex.n) == CB_NO_ERROR) { WalkMicro(&um, 0); walks++; } }
+     vh::stat("regress_micro_walks", walks); }
+   RegressCase("MiniMessage string item without NUL terminator / of length 0, then MMPrint", k++);
+   { for (int which = 0; which < 3; which++) { Bytes p; put32(p, 1); if (which == 0) put32(p, 0); else if (which == 1) { put32(p, 3); p += "abc"; } else { put32(p, 4); p += Bytes("ab\0c", 4); }
+       const Bytes b = OneField("s", B_STRING_TYPE, p); Exact ex(b); MMessage * mm = MMAllocMessage(0); if (MMUnflattenMessage(mm, ex.p, ex.n) == CB_NO_ERROR) { vh::stat("regress_mini_unterminated_accepted"); UseMini(mm); } MMFreeMessage(mm);
+       Message m; Exact e2(b); if (m.UnflattenFromBytes(e2.p, e2.n).IsOK()) UseMessage(m); } }
+   RegressCase("TelnetPlainTextMessageIOGateway: Reset() inside a telnet sub-negotiation / command, then a valid line", k++);
+   { static const char * const pre[] = {"\xff\xfa", "\xff", "\xff\xfb", "abc\xff\xfa\x01\x02"}; for (int i = 0; i < 4; i++) { TelnetPlainTextMessageIOGateway gw; Rx rx(DG_TEXT); (void)PumpStream(gw, pre[i], rx, true); gw.Reset(); Rx rx2(DG_TEXT); (void)PumpStream(gw, "hello\r\n", rx2, true); if (rx2.digest != "hello\n") Fail("regress-telnet-reset", vh::fmt("after [%s] and Reset() the line 'hello' arrives as %zu digest bytes", vh::hex(pre[i], strlen(pre[i])).c_str(), rx2.digest.size())); } }
+   RegressCase("WebSocketMessageIOGateway: Reset() inside a frame header / payload, then a valid frame stream", k++);
+   { MessageRef t = GetMessageFromPool(PR_COMMAND_TEXT_STRINGS); (void)t()->AddString(PR_NAME_TEXT_LINE, "a line of text for the websocket"); std::vector<MessageRef> l; l.push_back(t); Bytes want; AppendDigest(DG_WS, *t(), want);
+     for (int client = 0; client < 2; client++) { WebSocketMessageIOGateway snd(client ? &kFalse : &kTrue); const Bytes st = SendStream(snd, l);
+        for (size_t cut = 1; cut < st.size(); cut++) { WebSocketMessageIOGateway gw(client ? &kTrue : &kFalse); Rx rx(DG_WS); (void)PumpStream(gw, st.substr(0, cut), rx, true); gw.Reset(); Rx rx2(DG_WS); const bool err = PumpStream(gw, st, rx2, true);
+           if (err || rx2.digest != want) { Fail("regress-ws-reset", vh::fmt("receiver role %s: %zu of %zu frame bytes, Reset(), then the whole frame: error=%d, %ld Message(s)", client ? "client" : "server", cut, st.size(), (int)err, rx2.n)); break; } } } }
+}
 static int Done() { const int rc = vh::finish(); for (int i = 0; i < NE; i++) gBasesE[i].clear(); return rc; }   // pooled objects must be back before the pools' destructors run
 int main(int argc, char ** argv)
 {
@@ -862,7 +885,7 @@ int main(int argc, char ** argv)
    devnull = fopen("/dev/null", "w"); if (!devnull) { fprintf(stderr, "HARNESS-ABORT: /dev/null\n"); return 2; }
    gMeasure = allocmon::active() && !vh::has_opt("nomeasure");
    vh::Ctx & c = vh::ctx(); const std::string mode = vh::opt("mode", "msg");
-   if (mode == "regress") { Regress(); return Done(); }
+   if (mode == "regress") { Regress(); Regress2(7); return Done(); }
    if (mode == "deepnest") { for (long k = c.from; k < c.from + c.cases; k++) { vh::begin_case(k); DeepNest(k); } return Done(); }
    if (mode == "parsers") {   // the four Message parsers interleaved (memcheck leg): case k -> parser k%4, its case k/4 beyond the sweeps
       for (long k = c.from; k < c.from + c.cases; k++) { vh::begin_case(k); RunCase((int)(k % 4), c.seed, k / 4); }
@@ -870,7 +893,7 @@ int main(int argc, char ** argv)
    }
    int e = -1; for (int i = 0; i < NE; i++) if (mode == ENAME[i]) e = i;
    if (e < 0) { fprintf(stderr, "vh: unknown mode %s\n", mode.c_str()); return 3; }
-   BuildSweep(e, c.seed, vh::optl("sweepT", 0), vh::optl("sweepW", 0));
+   BuildSweep(e, c.seed, vh::optl("sweepT", 0), vh::optl("sweepW", 0), vh::optl("sweepCap", 0));
    vh::statmax("max_sweep_cases", gSweepTotal);
    for (long k = c.from; k < c.from + c.cases; k++) { vh::begin_case(k); RunCase(e, c.seed, k); }
    return Done();
